@@ -38,7 +38,7 @@ def pStatements (d : Gen.D) (f : Nat) (ts : List Tok) : Except Err (List Stmt) :
 /-- `_parse_sub_value_expression` -/
 def pSubValue (d : Gen.D) (f : Nat) (ts : List Tok) : R Expr :=
   match ts with
-  | [] => .error (.py .IndexError)
+  | [] => .error .parse
   | g :: r => match pSplit d f [] [] g.children with | .ok vs => .ok (.subValue vs, r) | .error e => .error e
 
 def entries : List (String × Entry) := [
